@@ -6,7 +6,10 @@ Driver for C12.  Each line is a C11 history followed by a batch of nearest-neigh
 `K <n> (<x> <y> <k>)*` (k = 0: NearestNeighbor, k ≥ 1: NearestNeighbors(k)) that the harness ran on
 the real tree after the history:
 
-   => T <size> <depth> <node> ( '|' nn <id> | '|' nn panic <msg> | '|' knn <cnt> (<id>|nil)*cnt )*
+   => ( '|' nn <id> | '|' nn panic <msg> | '|' knn <cnt> (<id>|nil)*cnt | '|' oppanic <step> <msg> )*  '|' T <size> <depth> <node>
+
+The operation list of a C12 line contains `Q<j>` steps (the j-th query of the batch, asked at that
+point of the history; the same j may be asked several times).
 
 Verdicts: SPEC when an answer violates Spec.lean w.r.t. the multiset of objects stored according
 to the history; DIFF when the final tree or an answer differs from the model (object identities
@@ -77,41 +80,63 @@ def judgeQuery (h : Hist) (s : List ObjRec) (t : Tree ObjRec) (treeSame : Bool) 
           | .error f => if treeSame then some s!"DIFF knn-model-faults-{at_}" else none
     | _ => some "SPEC bad-answer-syntax"
 
+/-- walk the history: operations update the Spec multiset `s` and the model tree; every query is
+judged at that moment (Spec verdict against `s`, model answer on the model tree of that moment) -/
+def judgeHist (h : Hist) (kqs : Array KQ) (groups : List Tok) : String := Id.run do
+  let cls := h.cls
+  -- a panic inside Insert/Delete ends the implementation's run
+  for g in groups do
+    if g.head? == some "oppanic" then
+      return s!"SPEC {cls} Insert/Delete-panicked-at-step-{g.getD 1 "?"}(C11)"
+  let mut s : List ObjRec := []
+  let mut model : Option (Tree ObjRec) := some (newTree h.minC h.maxC)
+  let mut gs := groups
+  let mut verdicts : Array String := #[]
+  let mut nq := 0
+  for st in h.steps do
+    match st with
+    | .op _ o =>
+      s := specStep s o
+      model := match model with
+        | some t => match t.step goHeur o with | .ok (t', _) => some t' | .error _ => none
+        | none => none
+    | .query j =>
+      match kqs[j]?, gs with
+      | some q, a :: rest =>
+        gs := rest
+        nq := nq + 1
+        let mt := model.getD (newTree h.minC h.maxC)
+        match judgeQuery h s mt model.isSome q a with
+        | some v => verdicts := verdicts.push s!"{v}-(query#{nq})"
+        | none => pure ()
+      | _, _ => return s!"SPEC {cls} missing-answers"
+  -- the final dump
+  match gs with
+  | ("T" :: sz :: dp :: t) :: _ =>
+    match pNode h.pool 64 t with
+    | none => return s!"SPEC {cls} malformed-tree-after-history(C11)"
+    | some (n, pok, _) =>
+      let treeSame := match model with | some mt => nodeStr n == nodeStr mt.root | none => false
+      match verdicts.toList.find? (·.startsWith "SPEC"), verdicts.toList.head? with
+      | some m, _ => return s!"SPEC {cls} {(m.drop 5).toString}"
+      | none, some m =>
+        if !treeSame then return s!"DIFF {cls} final-tree-differs-from-model(C11)"
+        return s!"DIFF {cls} {(m.drop 5).toString}"
+      | none, none =>
+        if !treeSame then return s!"DIFF {cls} final-tree-differs-from-model(C11)"
+        return s!"OK {cls}-h{(model.map (·.height)).getD 0}-q{nq}"
+  | _ => return s!"SPEC {cls} missing-final-dump"
+
 def judgeLine (line : String) : String :=
   let (lhs, rhs) := splitArrow (tokens line)
   match pHist lhs with
   | none => "BAD parse"
   | some h =>
-    let cls := h.cls
     match h.rest with
     | "K" :: nk :: kt =>
       match nk.toNat?.bind (fun n => pKQs n kt) with
       | none => "BAD parse-K"
-      | some kqs =>
-        let ops := h.ops.map (·.2)
-        let s := specRun ops
-        match rhs with
-        | "T" :: sz :: dp :: t =>
-          match pNode h.pool 64 t with
-          | none => s!"SPEC {cls} malformed-tree-after-history(C11)"
-          | some (n, pok, t) =>
-            match runOps goHeur (newTree h.minC h.maxC) ops with
-            | .error f => s!"DIFF {cls} model-faults-in-history(C11)"
-            | .ok mt =>
-              -- the answers are judged by the Spec against the HISTORY's multiset `s` whether or not
-              -- the final tree agrees with the model; SPEC is reported before DIFF
-              let treeSame := nodeStr n == nodeStr mt.root
-              let answers := splitBars t
-              if answers.length != kqs.length then s!"SPEC {cls} missing-answers" else
-              let bad := (kqs.zip answers).filterMap fun (q, a) => judgeQuery h s mt treeSame q a
-              match bad.find? (·.startsWith "SPEC"), bad.head? with
-              | some m, _ => s!"SPEC {cls} {(m.drop 5).toString}"
-              | none, some m => s!"DIFF {cls} {(m.drop 5).toString}"
-              | none, none =>
-                if !treeSame then s!"DIFF {cls} final-tree-differs-from-model(C11)"
-                else s!"OK {cls}-h{mt.height}"
-        | "panic" :: m => s!"SPEC {cls} history-panicked(C11)"
-        | _ => "BAD result"
+      | some kqs => judgeHist h kqs.toArray (splitBars rhs)
     | _ => "BAD no-K"
 
 end GeomV.C12
